@@ -102,13 +102,15 @@ def lock_for(path):
 
 
 def gc_build_dirs():
-    """drop goto-binary caches of older trees (disk is limited)"""
-    root = os.path.join(BUILD, "gb")
-    if not os.path.isdir(root):
-        return
-    for d in os.listdir(root):
-        if d != tree_hash():
-            shutil.rmtree(os.path.join(root, d), ignore_errors=True)
+    """drop caches of older trees (disk is limited); caches younger than 6 hours are kept (concurrent runs on other trees)"""
+    for sub in ("gb", "work", "gen"):
+        root = os.path.join(BUILD, sub)
+        if not os.path.isdir(root):
+            continue
+        for d in os.listdir(root):
+            p = os.path.join(root, d)
+            if d != tree_hash() and time.time() - os.path.getmtime(p) > 6 * 3600:
+                shutil.rmtree(p, ignore_errors=True)
 
 
 def unit_gb(unit, flags):
@@ -377,7 +379,7 @@ def run_case(c, tier, keep=False):
 
 def run_case_(c, tier, keep=False):
     t0 = time.time()
-    wd = os.path.join(BUILD, "work", c.pid, c.hname, re.sub(r"[^A-Za-z0-9_.-]", "_", c.name))
+    wd = os.path.join(BUILD, "work", tree_hash(), c.pid, c.hname, re.sub(r"[^A-Za-z0-9_.-]", "_", c.name))
     shutil.rmtree(wd, ignore_errors=True)
     try:
         linked = build_case(c, wd)
@@ -555,7 +557,7 @@ def handle_violation(c, linked, wd, tier, timeout, memcap):
 
 
 def make_replay(c, linked, wd, timeout, memcap):
-    rdir = os.path.join(VERIF, "replays", c.pid, "%s.%s" % (c.hname, re.sub(r"[^A-Za-z0-9_.-]", "_", c.name)))
+    rdir = os.path.join(os.environ.get("VF_REPLAY_DIR", os.path.join(VERIF, "replays")), c.pid, "%s.%s" % (c.hname, re.sub(r"[^A-Za-z0-9_.-]", "_", c.name)))
     shutil.rmtree(rdir, ignore_errors=True)
     os.makedirs(rdir, exist_ok=True)
     first = c.failed[0]
@@ -882,8 +884,9 @@ def check(pid, tier, only=None, jobs=None, keep=False):
         "wall_s": round(time.time() - t0, 1),
         "violations": len(viol),
     }
-    os.makedirs(os.path.join(VERIF, "evidence"), exist_ok=True)
-    json.dump(ev, open(os.path.join(VERIF, "evidence", pid + ".json"), "w"), indent=1)
+    evdir = os.environ.get("VF_EVIDENCE_DIR", os.path.join(VERIF, "evidence"))
+    os.makedirs(evdir, exist_ok=True)
+    json.dump(ev, open(os.path.join(evdir, pid + ".json"), "w"), indent=1)
     print("[%s] tier=%s obligations=%d discharged=%d known=%d undecided=%d errors=%d violations=%d wall=%.0fs" % (
         pid, tier, len(done), len(ok), len(known), len(und), len(errs), len(viol), time.time() - t0))
     if viol:
